@@ -210,7 +210,12 @@ def run_on_virtual_loop(coro_fn: Callable[[], Any], clock: SimClock, on_idle: Ca
 # --------------------------------------------------------------------------- bus seam
 def wire_id(msg) -> int:
     """The identifier a frame carries on the wire: a standard-format frame has 11 identifier bits only."""
-    return msg.arbitration_id if getattr(msg, "is_extended_id", False) else (msg.arbitration_id & 0x7FF)
+    if getattr(msg, "is_extended_id", False):
+        # an extended-format frame whose identifier would also fit into 11 bits is still another identifier on the
+        # wire than the standard-format one (a node listening for the 11-bit ID does not receive it): marked with
+        # the IDE flag, like socketcan's CAN_EFF_FLAG (seeded change C12-P)
+        return msg.arbitration_id | (0x80000000 if msg.arbitration_id <= 0x7FF else 0)
+    return msg.arbitration_id & 0x7FF
 
 
 def make_bus_class():
